@@ -31,8 +31,13 @@ def recipe(c: Check):
     # reflective obligations over today's tables: table_ok, sites_ok, nsites_ok (each an eq_refl inside a theorem above)
     st = c.run_driver("plugins", q(c.tier, 1500, 20000), shards=q(c.tier, 8, 16), timeout=q(c.tier, 600, 3000))
     if st is not None:
+        if st.get("null_content_reply_crashes_frps"):
+            c.failures.append(dict(key="impl:null-content-reply-crashes-frps", driver="plugins",
+                                   what="a plugin reply {\"unchange\":false,\"content\":null} to Login is not refused cleanly: "
+                                        + str(st.get("null_content_probe_detail"))[:600],
+                                   case="work/h_c15 nullcrash -extra Login   (child process: in-process frps, one HTTP plugin for Login, scripted login)"))
         cnt = c.cov.get("coq_counters", {}).get("plugins", {})
-        need = ["NOK", "NREJECTED", "NERROR", "NTHREADED", "NMULTI", "NHTTP", "NSYS", "NNOTIFY"]
+        need = ["NOK", "NREJECTED", "NERROR", "NTHREADED", "NMULTI", "NHTTP", "NSYS", "NNOTIFY", "NUNREACHABLE"]
         missing = [k for k in need if cnt.get(k, 0) <= 0]
         if missing and not c.broken:
             c.broken.append(dict(kind="sanity", name="driver plugins never reached: " + ",".join(missing),
